@@ -87,6 +87,53 @@ theorem ecs_set_stores_clone (mw : S_ecscache_Middleware) (cr : Option S_ecscach
   · by_cases h2 : dep = true <;> by_cases h3 : (mw.overrideTTL && !decide (rcode = (2 : Int))) = true <;>
       simp [h1, h2, h3]
 
+/-! ## `initial.Middleware.newRespDDR` (translator round 3): the shared DDR templates are never written
+
+The two loops over `ddr.DeviceRecordTemplates` / `ddr.PublicRecordTemplates` are translated as effect
+loops (`"elem_loop"`): the entries between `("for", …)` and `("end", [])` are what happens for every
+template record `rr`. -/
+
+/-- Scans a trace: inside a `for` block nothing may be written through `rr` and `rr` may not be appended
+to the response before `rr` has been re-bound to a `dns.Copy` of itself; nothing is ever written through
+`ddr` (the server group's shared templates). `copied`: has `rr` been re-bound in the current block? -/
+def copiesOnly : List (String × List String) → Bool → Bool
+  | [], _ => true
+  | e :: r, copied =>
+    if e.1 == "for" then copiesOnly r false
+    else if e.1 == "rebind rr" then (e.2.any fun v => goHasPrefix v "dns.Copy(rr)") && copiesOnly r true
+    else if goHasPrefix e.1 "set rr." || e.1 == "set resp.Answer" then copied && copiesOnly r copied
+    else if goHasPrefix e.1 "set ddr" || goHasPrefix e.1 "set ri." then false
+    else copiesOnly r copied
+
+def cnt (n : String) (tr : List (String × List String)) : Nat := (names tr).count n
+
+/-- For every request, server group and device: `newRespDDR` panics only without a server group; every
+record it appends to the answer is a `dns.Copy` of a template, the owner name (and, for a device, the
+target) is set on the copy only — after the re-binding — and nothing is written through the templates;
+exactly one of the two template lists is used, the device templates iff the request has a device; the
+target is personalised only then. -/
+theorem newRespDDR_copies_templates (mw : S_initial_Middleware) (ri : Option S_agd_RequestInfo) (nr : AbsPtr) (name : String)
+    (dd : Option S_agd_Profile × Option S_agd_Device) :
+    (newRespDDR mw ri nr name dd = none ↔ (ri.bind (·.ServerGroup)) = none) ∧
+    ∀ resp tr, newRespDDR mw ri nr name dd = some (resp, tr) →
+      resp = nr ∧ copiesOnly tr false = true ∧ cnt "for" tr = 1 ∧ cnt "Copy" tr = 1 ∧ cnt "set resp.Answer" tr = 1 ∧
+      ("set rr.Hdr.Name", [name]) ∈ tr ∧
+      (dd.2 ≠ none → ("for", ["_, rr, range ddr.DeviceRecordTemplates"]) ∈ tr ∧ cnt "set rr.Target" tr = 1) ∧
+      (dd.2 = none → ("for", ["_, rr, range ddr.PublicRecordTemplates"]) ∈ tr ∧ cnt "set rr.Target" tr = 0) := by
+  obtain ⟨pr, dev⟩ := dd
+  cases ri with
+  | none => simp [newRespDDR]
+  | some r =>
+    cases hsg : r.ServerGroup with
+    | none => simp [newRespDDR, hsg]
+    | some sg =>
+      cases dev <;>
+        (refine ⟨by simp [newRespDDR, hsg], fun resp tr h => ?_⟩
+         simp [newRespDDR, hsg] at h
+         obtain ⟨rfl, rfl⟩ := h
+         refine ⟨rfl, by simp [copiesOnly, goHasPrefix], ?_⟩
+         simp [cnt, names])
+
 end Agd.Tie.TrC07
 
 #print axioms Agd.Tie.TrC07.translation_complete
